@@ -49,10 +49,15 @@ use barter::{
     system::config::{ExecutionConfig, InstrumentConfig},
 };
 use barter_data::{
-    books::Level,
+    books::{Level, OrderBook},
     event::{DataKind, MarketEvent},
     streams::consumer::MarketStreamEvent,
-    subscription::{book::OrderBookL1, trade::PublicTrade},
+    subscription::{
+        book::{OrderBookEvent, OrderBookL1},
+        candle::Candle,
+        liquidation::Liquidation,
+        trade::PublicTrade,
+    },
 };
 use barter_execution::{
     AccountEvent, AccountEventKind,
@@ -130,7 +135,7 @@ struct Acct {
 fn market_key(e: &MarketEvent<InstrumentIndex, DataKind>) -> String {
     format!(
         "I|{}|{}|{}|{:?}",
-        e.time_exchange.timestamp_millis(),
+        e.time_exchange.timestamp_nanos_opt().unwrap_or(i64::MIN),
         e.exchange,
         e.instrument.index(),
         e.kind
@@ -352,7 +357,7 @@ struct Sink {
     resp_err: u64,
     trades: u64,
     balances: u64,
-    snapshot_seen: bool,
+    snapshots: usize,
     connectivity_errors: u64,
     awaiting: bool,
     gate: Option<Arc<Semaphore>>,
@@ -360,8 +365,8 @@ struct Sink {
 }
 
 impl Sink {
-    fn quiescent(&self, hold: bool) -> bool {
-        (!hold || self.snapshot_seen)
+    fn quiescent(&self, hold: usize) -> bool {
+        self.snapshots >= hold
             && self.sent == self.resp_ok + self.resp_err
             && self.trades == self.resp_ok
             && self.balances == self.resp_ok
@@ -391,10 +396,17 @@ struct Params {
 #[derive(Debug, Clone)]
 struct Strat {
     id: StrategyId,
+    #[allow(dead_code)]
     bt: usize,
     p: Params,
-    /// paced feed: hold orders until the account snapshot has been processed
-    hold: bool,
+    /// paced feed: hold orders until this many account snapshots (one per mocked exchange) have
+    /// been processed; 0 under the plain feed
+    hold: usize,
+    /// slot -> engine instrument index
+    slot_index: Vec<usize>,
+    /// engine indices of instruments on an exchange without execution link: never traded
+    /// (except by the fatal rule)
+    no_trade: Vec<usize>,
     sink: Arc<Mutex<Sink>>,
 }
 
@@ -405,9 +417,12 @@ impl Strat {
         }
         let lot = Decimal::new(self.p.lot_milli, 3);
         if let Some((fi, fc)) = self.p.fatal {
-            if fi == inst {
+            if self.slot_index.get(fi) == Some(&inst) {
                 return (d.count == fc).then_some((Side::Buy, lot));
             }
+        }
+        if self.no_trade.contains(&inst) {
+            return None;
         }
         d.px?;
         if d.units > 0 && d.count % self.p.m == 0 {
@@ -440,7 +455,7 @@ impl AlgoStrategy for Strat {
                 LogItem::Reconnecting(_) => {}
                 LogItem::Account(a) => {
                     match a.kind {
-                        0 => sink.snapshot_seen = true,
+                        0 => sink.snapshots += 1,
                         1 => sink.balances += 1,
                         2 => sink.resp_ok += 1,
                         3 | 4 => sink.resp_err += 1,
@@ -460,7 +475,7 @@ impl AlgoStrategy for Strat {
 
         // decisions
         let mut opens = vec![];
-        if !self.hold || sink.snapshot_seen {
+        if sink.snapshots >= self.hold {
             for s in state.instruments.instruments(&InstrumentFilter::None) {
                 let inst = s.key.index();
                 if let Some((side, qty)) = self.decide(inst, &s.data) {
@@ -469,7 +484,7 @@ impl AlgoStrategy for Strat {
                             exchange: s.instrument.exchange,
                             instrument: s.key,
                             strategy: self.id.clone(),
-                            cid: ClientOrderId::new(format!("b{}-i{}-n{}", self.bt, inst, s.data.count)),
+                            cid: ClientOrderId::new(format!("{}-i{}-n{}", self.id.0, inst, s.data.count)),
                         },
                         state: RequestOpen {
                             side,
@@ -614,17 +629,25 @@ impl BacktestMarketData for PacedMarketData {
 #[derive(Debug, Clone)]
 enum EvSpec {
     /// instrument slot, time offset (ms from BASE), price in quarters, amount in quarters, buy side
-    Trade { inst: usize, t: i64, px4: i64, am4: i64, buy: bool },
+    /// `ns`: additional nanoseconds on top of `t` (sub-millisecond clusters, ms boundaries)
+    Trade { inst: usize, t: i64, ns: i64, px4: i64, am4: i64, buy: bool },
     /// best bid / ask prices in quarters, amounts in quarters
-    L1 { inst: usize, t: i64, bid4: i64, ask4: i64, bam4: i64, aam4: i64 },
+    L1 { inst: usize, t: i64, ns: i64, bid4: i64, ask4: i64, bam4: i64, aam4: i64 },
+    /// the other market item kinds the engine accepts: 0 L1 with a bid only, 1 L1 with an ask
+    /// only, 2 empty L1, 3 candle, 4 liquidation, 5 L2 order book snapshot, 6 L2 update
+    Other { inst: usize, t: i64, ns: i64, kind: u8, px4: i64 },
     Reconnecting { slot: usize },
 }
 
 #[derive(Debug, Clone)]
 struct Scenario {
     paced: bool,
-    /// include an instrument on an exchange without execution link (slot 2)
-    with_unlinked: bool,
+    /// 0: Binance spot only (slots 0, 1). 1: plus a Kraken spot instrument without execution
+    /// link (slot 2). 2: three exchanges with the link-less one in the middle — Binance spot
+    /// (mock; slots 0, 1), Kraken (no link; slot 2 perpetual, contract size 0.001, settled in
+    /// the quote asset; slot 4 future, contract size 100, settled in the base asset), Okx
+    /// (second mock; slot 3 spot)
+    topo: u8,
     latency_ms: u64,
     fee_bp: i64,
     /// quote balance of the mock exchange, whole units
@@ -634,17 +657,21 @@ struct Scenario {
     params: Vec<Params>,
     workers: Vec<usize>,
     /// how the backtest ids are formed: 0 "bt<n>", 1 "<n>" (decimal, not padded: "10" < "2"
-    /// lexicographically), 2 reverse-sorted, 3 neither sorted nor reverse-sorted, 4 all equal
+    /// lexicographically), 2 reverse-sorted, 3 neither sorted nor reverse-sorted, 4 all equal,
+    /// 5 twins (2k and 2k+1 share id and parameters)
     ids: u8,
 }
 
 impl EvSpec {
     fn to_json(&self) -> Value {
         match self {
-            EvSpec::Trade { inst, t, px4, am4, buy } => json!({"k":"T","i":inst,"t":t,"p":px4,"a":am4,"b":buy}),
-            EvSpec::L1 { inst, t, bid4, ask4, bam4, aam4 } => {
-                json!({"k":"L","i":inst,"t":t,"bp":bid4,"ap":ask4,"ba":bam4,"aa":aam4})
+            EvSpec::Trade { inst, t, ns, px4, am4, buy } => {
+                json!({"k":"T","i":inst,"t":t,"n":ns,"p":px4,"a":am4,"b":buy})
             }
+            EvSpec::L1 { inst, t, ns, bid4, ask4, bam4, aam4 } => {
+                json!({"k":"L","i":inst,"t":t,"n":ns,"bp":bid4,"ap":ask4,"ba":bam4,"aa":aam4})
+            }
+            EvSpec::Other { inst, t, ns, kind, px4 } => json!({"k":"O","i":inst,"t":t,"n":ns,"c":kind,"p":px4}),
             EvSpec::Reconnecting { slot } => json!({"k":"R","s":slot}),
         }
     }
@@ -654,15 +681,24 @@ impl EvSpec {
             "L" => EvSpec::L1 {
                 inst: g("i") as usize,
                 t: g("t"),
+                ns: g("n"),
                 bid4: g("bp"),
                 ask4: g("ap"),
                 bam4: g("ba"),
                 aam4: g("aa"),
             },
             "R" => EvSpec::Reconnecting { slot: g("s") as usize },
+            "O" => EvSpec::Other {
+                inst: g("i") as usize,
+                t: g("t"),
+                ns: g("n"),
+                kind: g("c") as u8,
+                px4: g("p"),
+            },
             _ => EvSpec::Trade {
                 inst: g("i") as usize,
                 t: g("t"),
+                ns: g("n"),
                 px4: g("p"),
                 am4: g("a"),
                 buy: v["b"].as_bool().unwrap_or(true),
@@ -692,7 +728,7 @@ impl Params {
 impl Scenario {
     fn to_json(&self) -> Value {
         json!({
-            "paced": self.paced, "unlinked": self.with_unlinked, "latency_ms": self.latency_ms,
+            "paced": self.paced, "topo": self.topo, "latency_ms": self.latency_ms,
             "fee_bp": self.fee_bp, "quote_balance": self.quote_balance, "base_balance": self.base_balance,
             "events": self.events.iter().map(|e| e.to_json()).collect::<Vec<_>>(),
             "params": self.params.iter().map(|p| p.to_json()).collect::<Vec<_>>(),
@@ -703,7 +739,10 @@ impl Scenario {
     fn from_json(v: &Value) -> Scenario {
         Scenario {
             paced: v["paced"].as_bool().unwrap_or(false),
-            with_unlinked: v["unlinked"].as_bool().unwrap_or(false),
+            topo: v["topo"]
+                .as_u64()
+                .map(|t| t.min(2) as u8)
+                .unwrap_or(if v["unlinked"].as_bool().unwrap_or(false) { 1 } else { 0 }),
             latency_ms: v["latency_ms"].as_u64().unwrap_or(0),
             fee_bp: v["fee_bp"].as_i64().unwrap_or(0),
             quote_balance: v["quote_balance"].as_i64().unwrap_or(1_000_000),
@@ -717,6 +756,14 @@ impl Scenario {
             ids: v["ids"].as_u64().unwrap_or(0) as u8,
         }
     }
+    /// id scheme 5: backtests 2k and 2k+1 are twins (same id, parameters, risk-free rate)
+    fn twin_of(&self, bt: usize) -> usize {
+        if self.ids == 5 { bt & !1 } else { bt }
+    }
+    /// distinct per backtest, so that any cross-wiring of arguments or results shows
+    fn rfr_of(&self, bt: usize) -> Decimal {
+        Decimal::new(5 + self.twin_of(bt) as i64, 2)
+    }
     /// the id given to backtest `bt`
     fn id_of(&self, bt: usize) -> String {
         match self.ids {
@@ -724,6 +771,7 @@ impl Scenario {
             2 => format!("r{:03}", 900 - bt),
             3 => format!("k{}", (bt * 7 + 3) % 37),
             4 => "same".to_string(),
+            5 => format!("tw{}", bt / 2),
             _ => format!("bt{bt}"),
         }
     }
@@ -734,7 +782,7 @@ impl Scenario {
         let mut n = 0;
         for (pos, e) in self.events.iter().enumerate() {
             let inst = match e {
-                EvSpec::Trade { inst, .. } | EvSpec::L1 { inst, .. } => *inst,
+                EvSpec::Trade { inst, .. } | EvSpec::L1 { inst, .. } | EvSpec::Other { inst, .. } => *inst,
                 EvSpec::Reconnecting { .. } => continue,
             };
             if inst == fi {
@@ -757,39 +805,63 @@ struct Built {
     executions: Vec<ExecutionConfig>,
     /// slot -> (exchange id, instrument index)
     slots: Vec<(ExchangeId, InstrumentIndex)>,
+    /// engine indices of the instruments whose exchange has no execution link
+    no_trade: Vec<usize>,
+    n_mocks: usize,
 }
 
 fn build_config(sc: &Scenario) -> Built {
+    let spot = |ex: &str, name: &str, base: &str, quote: &str| {
+        json!({"exchange": ex, "name_exchange": name, "underlying": {"base": base, "quote": quote},
+               "quote": "underlying_quote", "kind": "spot"})
+    };
     let mut inst_cfg = vec![
-        json!({"exchange":"binance_spot","name_exchange":"BTCUSDT","underlying":{"base":"btc","quote":"usdt"},
-               "quote":"underlying_quote","kind":"spot"}),
-        json!({"exchange":"binance_spot","name_exchange":"ETHUSDT","underlying":{"base":"eth","quote":"usdt"},
-               "quote":"underlying_quote","kind":"spot"}),
+        spot("binance_spot", "BTCUSDT", "btc", "usdt"),
+        spot("binance_spot", "ETHUSDT", "eth", "usdt"),
     ];
-    if sc.with_unlinked {
-        inst_cfg.push(json!({"exchange":"kraken","name_exchange":"XBT/USD","underlying":{"base":"xbt","quote":"usd"},
-               "quote":"underlying_quote","kind":"spot"}));
+    match sc.topo {
+        1 => inst_cfg.push(spot("kraken", "XBT/USD", "xbt", "usd")),
+        2 => {
+            inst_cfg.push(json!({"exchange":"kraken","name_exchange":"PI_XBTUSD","underlying":{"base":"xbt","quote":"usd"},
+                "quote":"underlying_quote","kind":{"perpetual":{"contract_size":"0.001","settlement_asset":"usd"}}}));
+            inst_cfg.push(spot("okx", "BTC-USDT", "btc", "usdt"));
+            inst_cfg.push(json!({"exchange":"kraken","name_exchange":"FI_ETHUSD_251226","underlying":{"base":"eth","quote":"usd"},
+                "quote":"underlying_quote","kind":{"future":{"contract_size":"100","settlement_asset":"eth","expiry":1766707200000i64}}}));
+        }
+        _ => {}
     }
     let instruments: Vec<InstrumentConfig> =
         serde_json::from_value(Value::Array(inst_cfg)).expect("instrument config");
-    let exec = json!([{
+    let bal = |asset: &str, amount: i64| {
+        json!({"asset": asset, "balance": {"total": amount, "free": amount}, "time_exchange": "2023-01-01T00:00:00Z"})
+    };
+    let mut exec = vec![json!({
         "mocked_exchange": "binance_spot",
         "latency_ms": sc.latency_ms,
         "fees_percent": Decimal::new(sc.fee_bp, 4).to_string(),
         "initial_state": {
             "exchange": "binance_spot",
-            "balances": [
-                {"asset":"usdt","balance":{"total": sc.quote_balance,"free": sc.quote_balance},"time_exchange":"2023-01-01T00:00:00Z"},
-                {"asset":"btc","balance":{"total": sc.base_balance,"free": sc.base_balance},"time_exchange":"2023-01-01T00:00:00Z"},
-                {"asset":"eth","balance":{"total": sc.base_balance,"free": sc.base_balance},"time_exchange":"2023-01-01T00:00:00Z"}
-            ],
+            "balances": [bal("usdt", sc.quote_balance), bal("btc", sc.base_balance), bal("eth", sc.base_balance)],
             "instruments": [
                 {"instrument":"BTCUSDT","orders":[]},
                 {"instrument":"ETHUSDT","orders":[]}
             ]
         }
-    }]);
-    let executions: Vec<ExecutionConfig> = serde_json::from_value(exec).expect("execution config");
+    })];
+    if sc.topo == 2 {
+        exec.push(json!({
+            "mocked_exchange": "okx",
+            "latency_ms": sc.latency_ms,
+            "fees_percent": Decimal::new(sc.fee_bp + 5, 4).to_string(),
+            "initial_state": {
+                "exchange": "okx",
+                "balances": [bal("usdt", sc.quote_balance / 2 + 7), bal("btc", sc.base_balance / 2 + 3)],
+                "instruments": [{"instrument":"BTC-USDT","orders":[]}]
+            }
+        }));
+    }
+    let n_mocks = exec.len();
+    let executions: Vec<ExecutionConfig> = serde_json::from_value(Value::Array(exec)).expect("execution config");
     let indexed = IndexedInstruments::new(instruments);
     let find = |ex: ExchangeId, name: &str| {
         indexed
@@ -803,12 +875,25 @@ fn build_config(sc: &Scenario) -> Built {
         find(ExchangeId::BinanceSpot, "BTCUSDT"),
         find(ExchangeId::BinanceSpot, "ETHUSDT"),
     ];
-    if sc.with_unlinked {
-        slots.push(find(ExchangeId::Kraken, "XBT/USD"));
+    let mut linkless = vec![];
+    match sc.topo {
+        1 => {
+            slots.push(find(ExchangeId::Kraken, "XBT/USD"));
+            linkless.push(2);
+        }
+        2 => {
+            slots.push(find(ExchangeId::Kraken, "PI_XBTUSD"));
+            slots.push(find(ExchangeId::Okx, "BTC-USDT"));
+            slots.push(find(ExchangeId::Kraken, "FI_ETHUSD_251226"));
+            linkless.extend([2, 4]);
+        }
+        _ => {}
     }
     Built {
         instruments: indexed,
         executions,
+        n_mocks,
+        no_trade: linkless.iter().map(|&s: &usize| slots[s].1.index()).collect(),
         slots,
     }
 }
@@ -819,41 +904,93 @@ fn q4(x: i64) -> f64 {
 
 fn build_events(sc: &Scenario, b: &Built) -> Vec<MEvent> {
     let slot = |i: usize| b.slots[i.min(b.slots.len() - 1)];
-    let at = |t: i64| Utc.timestamp_millis_opt(BASE_MS + t).unwrap();
+    let at = |t: i64, ns: i64| {
+        Utc.timestamp_nanos((BASE_MS + t.clamp(-1_200_000_000_000, 6_000_000_000_000)) * 1_000_000 + ns.clamp(0, 59_000_000_000))
+    };
+    // `time_received` is a decoy: nothing the engine does may depend on it (the paced feed
+    // overwrites it with its gate stamp)
+    let decoy = |t: i64, n: usize| {
+        Utc.timestamp_nanos((BASE_MS + t.clamp(-1_200_000_000_000, 6_000_000_000_000) + 17 * 86_400_000) * 1_000_000 + 1 + n as i64)
+    };
+    let lvl = |p4: i64, a4: i64| Level::new(Decimal::new(p4 * 25, 2), Decimal::new(a4 * 25, 2));
     sc.events
         .iter()
         .enumerate()
-        .map(|(n, e)| match e {
-            EvSpec::Trade { inst, t, px4, am4, buy } => {
-                let (ex, idx) = slot(*inst);
+        .map(|(n, e)| {
+            let item = |inst: usize, t: i64, ns: i64, kind: DataKind| {
+                let (ex, idx) = slot(inst);
                 MarketStreamEvent::Item(MarketEvent {
-                    time_exchange: at(*t),
-                    time_received: Utc.timestamp_millis_opt(0).unwrap(),
+                    time_exchange: at(t, ns),
+                    time_received: decoy(t, n),
                     exchange: ex,
                     instrument: idx,
-                    kind: DataKind::Trade(PublicTrade {
+                    kind,
+                })
+            };
+            match e {
+                EvSpec::Trade { inst, t, ns, px4, am4, buy } => item(
+                    *inst,
+                    *t,
+                    *ns,
+                    DataKind::Trade(PublicTrade {
                         id: format!("t{n}"),
                         price: q4(*px4),
                         amount: q4(*am4),
                         side: if *buy { Side::Buy } else { Side::Sell },
                     }),
-                })
-            }
-            EvSpec::L1 { inst, t, bid4, ask4, bam4, aam4 } => {
-                let (ex, idx) = slot(*inst);
-                MarketStreamEvent::Item(MarketEvent {
-                    time_exchange: at(*t),
-                    time_received: Utc.timestamp_millis_opt(0).unwrap(),
-                    exchange: ex,
-                    instrument: idx,
-                    kind: DataKind::OrderBookL1(OrderBookL1 {
-                        last_update_time: at(*t),
-                        best_bid: Some(Level::new(Decimal::new(*bid4 * 25, 2), Decimal::new(*bam4 * 25, 2))),
-                        best_ask: Some(Level::new(Decimal::new(*ask4 * 25, 2), Decimal::new(*aam4 * 25, 2))),
+                ),
+                EvSpec::L1 { inst, t, ns, bid4, ask4, bam4, aam4 } => item(
+                    *inst,
+                    *t,
+                    *ns,
+                    DataKind::OrderBookL1(OrderBookL1 {
+                        last_update_time: at(*t, *ns),
+                        best_bid: Some(lvl(*bid4, *bam4)),
+                        best_ask: Some(lvl(*ask4, *aam4)),
                     }),
-                })
+                ),
+                EvSpec::Other { inst, t, ns, kind, px4 } => {
+                    let l1 = |bid: Option<Level>, ask: Option<Level>| {
+                        DataKind::OrderBookL1(OrderBookL1 {
+                            last_update_time: at(*t, *ns),
+                            best_bid: bid,
+                            best_ask: ask,
+                        })
+                    };
+                    let book = || {
+                        OrderBook::new(
+                            n as u64,
+                            Some(at(*t, *ns)),
+                            vec![lvl(*px4 - 1, 4), lvl(*px4 - 2, 8)],
+                            vec![lvl(*px4 + 1, 12)],
+                        )
+                    };
+                    let k = match kind {
+                        0 => l1(Some(lvl(*px4 - 1, 4)), None),
+                        1 => l1(None, Some(lvl(*px4 + 1, 4))),
+                        2 => l1(None, None),
+                        3 => DataKind::Candle(Candle {
+                            close_time: at(*t, *ns),
+                            open: q4(*px4),
+                            high: q4(*px4 + 8),
+                            low: q4(*px4 - 8),
+                            close: q4(*px4 + 1),
+                            volume: 12.5,
+                            trade_count: n as u64,
+                        }),
+                        4 => DataKind::Liquidation(Liquidation {
+                            side: Side::Sell,
+                            price: q4(*px4),
+                            quantity: 0.25,
+                            time: at(*t, *ns),
+                        }),
+                        5 => DataKind::OrderBook(OrderBookEvent::Snapshot(book())),
+                        _ => DataKind::OrderBook(OrderBookEvent::Update(book())),
+                    };
+                    item(*inst, *t, *ns, k)
+                }
+                EvSpec::Reconnecting { slot: s } => MarketStreamEvent::Reconnecting(slot(*s).0),
             }
-            EvSpec::Reconnecting { slot: s } => MarketStreamEvent::Reconnecting(slot(*s).0),
         })
         .collect()
 }
@@ -878,6 +1015,11 @@ struct RunObs {
     sum_ok: bool,
     connectivity_errors: u64,
     note: String,
+    /// every fill this engine processed carries an exchange time (minute resolution) taken from
+    /// THIS backtest's clock: paced feed = the latest market time this engine had processed;
+    /// plain feed (the request may be stamped while the engine is already further) = between
+    /// the dataset's first time and the latest market time processed when the fill arrived
+    clock_ok: bool,
     /// which backtest's id the summary found at this run's position carries (alone: itself;
     /// 9999 = no backtest of the batch has that id)
     pos_id: usize,
@@ -1006,23 +1148,71 @@ fn judge_summary(sum: &BacktestSummary<Daily>, fs: &FinalState, rfr: Decimal) ->
 
 struct Prepared<MD> {
     args: Arc<BacktestArgsConstant<MD, Daily, State>>,
+    slot_index: Vec<usize>,
+    no_trade: Vec<usize>,
+    n_mocks: usize,
 }
 
-fn make_dynamic(sc: &Scenario, bt: usize) -> (BacktestArgsDynamic<Strat, Risk>, Arc<Mutex<Sink>>) {
+fn make_dynamic<MD>(
+    sc: &Scenario,
+    prep: &Prepared<MD>,
+    bt: usize,
+) -> (BacktestArgsDynamic<Strat, Risk>, Arc<Mutex<Sink>>) {
     let sink = Arc::new(Mutex::new(Sink::default()));
     let d = BacktestArgsDynamic {
         id: SmolStr::new(sc.id_of(bt)),
-        risk_free_return: Decimal::new(5 + bt as i64, 2),
+        risk_free_return: sc.rfr_of(bt),
         strategy: Strat {
-            id: StrategyId::new(format!("s{bt}")),
+            id: StrategyId::new(format!("s{}", sc.twin_of(bt))),
             bt,
-            p: sc.params[bt].clone(),
-            hold: sc.paced,
+            p: sc.params[sc.twin_of(bt)].clone(),
+            hold: if sc.paced { prep.n_mocks } else { 0 },
+            slot_index: prep.slot_index.clone(),
+            no_trade: prep.no_trade.clone(),
             sink: Arc::clone(&sink),
         },
         risk: Risk::default(),
     };
     (d, sink)
+}
+
+fn minute_of_ns(ns: i64) -> i64 {
+    (ns.div_euclid(1_000_000) - BASE_MS).div_euclid(60_000)
+}
+
+fn fills_use_own_clock(sc: &Scenario, log: &[LogItem]) -> bool {
+    let first = sc.events.iter().find_map(|e| match e {
+        EvSpec::Trade { t, ns, .. } | EvSpec::L1 { t, ns, .. } | EvSpec::Other { t, ns, .. } => {
+            Some(minute_of_ns((BASE_MS + t.clamp(&-1_200_000_000_000, &6_000_000_000_000)) * 1_000_000 + ns.clamp(&0, &59_000_000_000)))
+        }
+        EvSpec::Reconnecting { .. } => None,
+    });
+    let Some(first) = first else { return true };
+    let mut latest = first;
+    for l in log {
+        match l {
+            LogItem::Market(k) => {
+                if let Some(ns) = k.split('|').nth(1).and_then(|x| x.parse::<i64>().ok()) {
+                    latest = latest.max(minute_of_ns(ns));
+                }
+            }
+            LogItem::Account(a) if a.kind == 6 => {
+                let m = a
+                    .detail
+                    .split(' ')
+                    .nth(2)
+                    .and_then(|x| x.strip_prefix('m'))
+                    .and_then(|x| x.parse::<i64>().ok());
+                match m {
+                    Some(m) if sc.paced && m == latest => {}
+                    Some(m) if !sc.paced && first <= m && m <= latest => {}
+                    _ => return false,
+                }
+            }
+            _ => {}
+        }
+    }
+    true
 }
 
 fn observe(
@@ -1035,7 +1225,7 @@ fn observe(
     sink: &Arc<Mutex<Sink>>,
 ) -> RunObs {
     let sink = sink.lock().unwrap();
-    let rfr = Decimal::new(5 + bt as i64, 2);
+    let rfr = sc.rfr_of(bt);
     let mut obs = RunObs {
         bt,
         workers,
@@ -1049,6 +1239,7 @@ fn observe(
         sum_ok: false,
         connectivity_errors: sink.connectivity_errors,
         note,
+        clock_ok: fills_use_own_clock(sc, &sink.log),
         pos_id: match summary {
             None => bt,
             Some(sum) if sum.id == sc.id_of(bt) => bt,
@@ -1082,7 +1273,7 @@ where
         .enable_all()
         .build()
         .expect("runtime");
-    let (dyns, sinks): (Vec<_>, Vec<_>) = bts.iter().map(|&bt| make_dynamic(sc, bt)).unzip();
+    let (dyns, sinks): (Vec<_>, Vec<_>) = bts.iter().map(|&bt| make_dynamic(sc, prep, bt)).unzip();
     let args = Arc::clone(&prep.args);
     let mut out = vec![];
     if workers == 0 {
@@ -1144,6 +1335,9 @@ fn prepare<MD>(b: &Built, md: MD, time_start: DateTime<Utc>) -> Prepared<MD> {
         .trading_state(TradingState::Enabled)
         .build();
     Prepared {
+        slot_index: b.slots.iter().map(|s| s.1.index()).collect(),
+        no_trade: b.no_trade.clone(),
+        n_mocks: b.n_mocks,
         args: Arc::new(BacktestArgsConstant {
             instruments: b.instruments.clone(),
             executions: b.executions.clone(),
@@ -1182,7 +1376,7 @@ where
     runs
 }
 
-fn run_scenario(sc: &Scenario) -> (Vec<String>, Vec<RunObs>) {
+fn run_scenario(sc: &Scenario) -> (Vec<String>, Vec<RunObs>, bool) {
     let b = build_config(sc);
     let events = build_events(sc, &b);
     let keys: Vec<String> = events.iter().map(stream_key).collect();
@@ -1193,13 +1387,18 @@ fn run_scenario(sc: &Scenario) -> (Vec<String>, Vec<RunObs>) {
             _ => None,
         })
         .expect("scenario without market item");
-    let md = MarketDataInMemory::new(Arc::new(events));
+    // the one dataset shared (Arc) by every backtest of the scenario: it must come back
+    // untouched and unreferenced
+    let shared = Arc::new(events);
+    let before = format!("{:?}", shared);
+    let md = MarketDataInMemory::new(Arc::clone(&shared));
     let runs = if sc.paced {
         run_all(sc, &prepare(&b, PacedMarketData { inner: md }, first))
     } else {
         run_all(sc, &prepare(&b, md, first))
     };
-    (keys, runs)
+    let intact = format!("{:?}", shared) == before;
+    (keys, runs, intact)
 }
 
 // ---------------------------------------------------------------------------------------------
@@ -1215,7 +1414,7 @@ fn fnv(s: &str) -> u64 {
     h
 }
 
-fn render(sc: &Scenario, keys: &[String], runs: &[RunObs]) -> (String, Vec<String>, bool) {
+fn render(sc: &Scenario, keys: &[String], runs: &[RunObs], intact: bool) -> (String, Vec<String>, bool) {
     // intern dataset keys; unknown recorded keys get codes from 1000
     let mut table: HashMap<String, i128> = HashMap::new();
     let mut ds_codes = vec![];
@@ -1269,6 +1468,9 @@ fn render(sc: &Scenario, keys: &[String], runs: &[RunObs]) -> (String, Vec<Strin
         if r.log.iter().any(|l| matches!(l, LogItem::Reconnecting(_))) {
             tag("reconnecting_item");
         }
+        if !r.clock_ok {
+            tag("fill_time_not_from_own_clock");
+        }
         if r.pnl != Decimal::ZERO {
             tag("realised_pnl");
         }
@@ -1281,7 +1483,7 @@ fn render(sc: &Scenario, keys: &[String], runs: &[RunObs]) -> (String, Vec<Strin
         });
         let fp = fnv(&format!("{}##{}##{}", r.fp_fills, r.fp_state, r.fp_summary));
         run_terms.push(format!(
-            "(mkRun {} {} {} {} {} {} {} {} {})",
+            "(mkRun {} {} {} {} {} {} {} {} {} {})",
             n(r.bt as u128),
             n(r.workers as u128),
             n(r.pos_id as u128),
@@ -1290,7 +1492,8 @@ fn render(sc: &Scenario, keys: &[String], runs: &[RunObs]) -> (String, Vec<Strin
             n(fp as u128),
             n(r.n_fills as u128),
             dec_z(r.pnl.round_dp(12), 12),
-            b(r.sum_ok)
+            b(r.sum_ok),
+            b(r.clock_ok)
         ));
     }
     let fatal = sc.params.first().and_then(|p| sc.fatal_position(p));
@@ -1318,14 +1521,41 @@ fn render(sc: &Scenario, keys: &[String], runs: &[RunObs]) -> (String, Vec<Strin
     }
     tag(&format!("backtests_{}", sc.params.len()));
     tag(&format!("id_scheme_{}", sc.ids));
+    tag(&format!("topology_{}", sc.topo));
+    if !intact {
+        tag("shared_dataset_modified");
+    }
+    for (pos, e) in sc.events.iter().enumerate() {
+        match e {
+            EvSpec::Reconnecting { .. } => {
+                tag(if pos == 0 {
+                    "reconnecting_first"
+                } else if pos + 1 == sc.events.len() {
+                    "reconnecting_last"
+                } else {
+                    "reconnecting_middle"
+                });
+                if pos > 0 && matches!(sc.events[pos - 1], EvSpec::Reconnecting { .. }) {
+                    tag("reconnecting_run");
+                }
+            }
+            EvSpec::Other { kind, .. } => tag(&format!("item_kind_other_{kind}")),
+            EvSpec::Trade { ns, .. } | EvSpec::L1 { ns, .. } => {
+                if *ns != 0 {
+                    tag("sub_millisecond_times");
+                }
+            }
+        }
+    }
     if runs.iter().any(|r| r.pos_id != r.bt) {
         tag("summary_position_mismatch");
     }
     let coq = format!(
-        "(mkCase {} {} {} {} {})",
+        "(mkCase {} {} {} {} {} {})",
         b(sc.paced),
         opt(fatal.map(|f| n(f as u128))),
         list(&ds_codes.iter().map(|c| z(*c)).collect::<Vec<_>>()),
+        b(intact),
         n(sc.params.len() as u128),
         list(&run_terms)
     );
@@ -1337,7 +1567,7 @@ fn emit(em: &mut Emitter, stream: &'static str, sc: &Scenario) {
         // the code under test hangs: enough failing cases have been produced
         return;
     }
-    let (keys, runs) = match catch(AssertUnwindSafe(|| run_scenario(sc))) {
+    let (keys, runs, intact) = match catch(AssertUnwindSafe(|| run_scenario(sc))) {
         Ok(x) => x,
         Err(msg) => {
             // a panic outside the backtest futures (building the inputs, the runtime): report it
@@ -1355,10 +1585,11 @@ fn emit(em: &mut Emitter, stream: &'static str, sc: &Scenario) {
                 pnl: Decimal::ZERO,
                 sum_ok: false,
                 connectivity_errors: 0,
+                clock_ok: true,
                 pos_id: 0,
                 note: format!("harness-level panic: {msg}"),
             };
-            (keys, vec![run])
+            (keys, vec![run], true)
         }
     };
     if runs.iter().any(|r| r.connectivity_errors > 0) {
@@ -1367,13 +1598,13 @@ fn emit(em: &mut Emitter, stream: &'static str, sc: &Scenario) {
         em.emit(Case {
             stream,
             input: sc.to_json(),
-            coq: "(mkCase false None [] 0%N [])".to_string(),
+            coq: "(mkCase false None [] true 0%N [])".to_string(),
             nontrivial: false,
             tags: vec!["not_judged_execution_request_timeout".into()],
         });
         return;
     }
-    let (coq, tags, nontrivial) = render(sc, &keys, &runs);
+    let (coq, tags, nontrivial) = render(sc, &keys, &runs, intact);
     if std::env::var("C20_DEBUG").is_ok() {
         for r in &runs {
             eprintln!(
@@ -1400,20 +1631,41 @@ fn emit(em: &mut Emitter, stream: &'static str, sc: &Scenario) {
 /// since the last event, so gaps far above any wall-clock delay keep request times monotone
 fn gen_events(r: &mut Rng, n: usize, insts: usize, adversarial: bool) -> Vec<EvSpec> {
     let mut t = 0i64;
-    let mut px = [400i64 + r.range(0, 40), 200 + r.range(0, 40), 300];
+    let mut ns = 0i64;
+    let mut px: Vec<i64> = (0..insts.max(3)).map(|i| 200 + 100 * (i as i64 % 3) + r.range(0, 40)).collect();
     let mut out = vec![];
-    for i in 0..n {
-        if adversarial && r.chance(1, 6) {
-            // equal or decreasing exchange time (never a small positive gap)
-            t -= *r.pick(&[0i64, 0, 60_000, 3_600_000]);
+    let mut i = 0;
+    while i < n {
+        i += 1;
+        // exchange times: whole minutes apart (the HistoricalClock adds wall-clock milliseconds,
+        // the fingerprints keep minute resolution), plus - adversarial - exact ties, decreasing
+        // times, sub-millisecond clusters around a millisecond boundary in any order, and jumps
+        // into the far past / far future
+        if adversarial && r.chance(1, 4) {
+            match r.below(6) {
+                0 | 1 => {}                                             // exact tie
+                2 => t -= *r.pick(&[60_000i64, 3_600_000]),             // decreasing
+                3 | 4 => {
+                    // same minute, nanoseconds apart (non-monotone within the cluster)
+                    ns = *r.pick(&[0i64, 1, 2, 999, 1_000, 999_999, 1_000_000, 1_000_001, 1_999_999, 2_000_000]);
+                }
+                _ => t += 60_000 * *r.pick(&[-15_000_000i64, 90_000_000, -7, 5_000_000]), // decades
+            }
+            // stay inside chrono's nanosecond range (1985 .. 2213)
+            t = t.clamp(-1_200_000_000_000, 6_000_000_000_000);
         } else {
             t += 60_000 * r.range(1, 120);
+            ns = 0;
         }
-        if adversarial && i > 0 && r.chance(1, 10) {
-            out.push(EvSpec::Reconnecting { slot: r.below(insts as u64) as usize });
+        if adversarial && r.chance(1, 8) {
+            // disconnect markers: anywhere (also first and last), now and then several in a row
+            let k = *r.pick(&[1usize, 1, 2, 3]);
+            for _ in 0..k {
+                out.push(EvSpec::Reconnecting { slot: r.below(insts as u64) as usize });
+            }
             continue;
         }
-        if adversarial && i > 0 && r.chance(1, 10) {
+        if adversarial && !out.is_empty() && r.chance(1, 10) {
             // exact duplicate of the previous (half of the time) or of any earlier event
             let e = if r.chance(1, 2) {
                 out[out.len() - 1].clone()
@@ -1425,27 +1677,32 @@ fn gen_events(r: &mut Rng, n: usize, insts: usize, adversarial: bool) -> Vec<EvS
         }
         let inst = r.below(insts as u64) as usize;
         px[inst] = (px[inst] + r.range(-12, 12)).max(8);
-        if r.chance(1, 4) {
-            out.push(EvSpec::L1 {
+        match r.below(8) {
+            0 | 1 => out.push(EvSpec::L1 {
                 inst,
                 t,
+                ns,
                 bid4: px[inst] - 1,
                 ask4: px[inst] + 1,
                 bam4: r.range(1, 40),
                 aam4: r.range(1, 40),
-            });
-        } else {
-            out.push(EvSpec::Trade {
+            }),
+            2 => out.push(EvSpec::Other { inst, t, ns, kind: r.below(7) as u8, px4: px[inst] }),
+            _ => out.push(EvSpec::Trade {
                 inst,
                 t,
+                ns,
                 px4: px[inst],
                 am4: r.range(1, 400),
                 buy: r.chance(1, 2),
-            });
+            }),
         }
     }
     if !out.iter().any(|e| !matches!(e, EvSpec::Reconnecting { .. })) {
-        out.push(EvSpec::Trade { inst: 0, t: t + 60_000, px4: 400, am4: 4, buy: true });
+        out.push(EvSpec::Trade { inst: 0, t: t + 60_000, ns: 0, px4: 400, am4: 4, buy: true });
+    }
+    if adversarial && r.chance(1, 6) {
+        out.push(EvSpec::Reconnecting { slot: 0 });
     }
     out
 }
@@ -1465,6 +1722,7 @@ fn gen_params(r: &mut Rng, nbt: usize) -> Vec<Params> {
 fn gen_scenario(r: &mut Rng, paced: bool, max_ev: usize, max_bt: usize, adversarial: bool) -> Scenario {
     let n = 1 + r.below(max_ev as u64) as usize;
     let nbt = 1 + r.below(max_bt as u64) as usize;
+    let topo = *r.pick(&[0u8, 0, 0, 2]);
     let mut params = gen_params(r, nbt);
     // now and then a lot the mock exchange must reject for lack of funds
     let poor = r.chance(1, 6);
@@ -1474,15 +1732,15 @@ fn gen_scenario(r: &mut Rng, paced: bool, max_ev: usize, max_bt: usize, adversar
     }
     Scenario {
         paced,
-        with_unlinked: false,
+        topo,
         latency_ms: *r.pick(&[0u64, 0, 1, 2]),
         fee_bp: *r.pick(&[0i64, 10, 25]),
         quote_balance: if poor { 1_000 } else { 1_000_000 },
         base_balance: if poor { 20 } else { 1_000 },
-        events: gen_events(r, n, 2, adversarial),
+        events: gen_events(r, n, if topo == 2 { 5 } else { 2 }, adversarial),
         params,
         workers: vec![1, 2, 8],
-        ids: *r.pick(&[0u8, 0, 1, 1, 2, 3, 4]),
+        ids: *r.pick(&[0u8, 0, 1, 1, 2, 3, 4, 5]),
     }
 }
 
@@ -1501,7 +1759,7 @@ fn gen_big_batch(r: &mut Rng, paced: bool, ids: u8) -> Scenario {
     }
     Scenario {
         paced,
-        with_unlinked: false,
+        topo: 0,
         latency_ms: *r.pick(&[0u64, 0, 1]),
         fee_bp: 10,
         quote_balance: 1_000_000,
@@ -1515,24 +1773,34 @@ fn gen_big_batch(r: &mut Rng, paced: bool, ids: u8) -> Scenario {
 
 fn gen_fatal(r: &mut Rng, max_ev: usize) -> Scenario {
     let n = 2 + r.below(max_ev as u64) as usize;
-    let mut events = gen_events(r, n, 3, false);
+    let topo = *r.pick(&[1u8, 1, 2]);
+    let fslot = if topo == 2 { *r.pick(&[2usize, 4]) } else { 2 };
+    let mut events = gen_events(r, n, if topo == 2 { 5 } else { 3 }, false);
     // make sure the unlinked instrument (slot 2) receives events
     let t_last = events
         .iter()
         .filter_map(|e| match e {
-            EvSpec::Trade { t, .. } | EvSpec::L1 { t, .. } => Some(*t),
+            EvSpec::Trade { t, .. } | EvSpec::L1 { t, .. } | EvSpec::Other { t, .. } => Some(*t),
             _ => None,
         })
         .max()
         .unwrap_or(0);
     let pos = r.below(events.len() as u64 + 1) as usize;
-    events.insert(pos.min(events.len()), EvSpec::Trade { inst: 2, t: t_last / 2, px4: 300, am4: 4, buy: true });
-    let on_slot2 = events.iter().filter(|e| matches!(e, EvSpec::Trade { inst: 2, .. } | EvSpec::L1 { inst: 2, .. })).count() as u64;
+    events.insert(
+        pos.min(events.len()),
+        EvSpec::Trade { inst: fslot, t: (t_last / 120_000) * 60_000, ns: 0, px4: 300, am4: 4, buy: true },
+    );
+    let on_slot2 = events
+        .iter()
+        .filter(|e| {
+            matches!(e, EvSpec::Trade { inst, .. } | EvSpec::L1 { inst, .. } | EvSpec::Other { inst, .. } if *inst == fslot)
+        })
+        .count() as u64;
     let mut params = gen_params(r, 1);
-    params[0].fatal = Some((2, 1 + r.below(on_slot2)));
+    params[0].fatal = Some((fslot, 1 + r.below(on_slot2)));
     Scenario {
         paced: false,
-        with_unlinked: true,
+        topo,
         latency_ms: 0,
         fee_bp: 10,
         quote_balance: 1_000_000,
@@ -1556,17 +1824,30 @@ fn table(em: &mut Emitter) {
             .map(|(i, k)| {
                 t += 3_600_000;
                 match k {
-                    0 => EvSpec::Trade { inst: 0, t, px4: 400 + 8 * i as i64, am4: 4, buy: true },
-                    1 => EvSpec::Trade { inst: 1, t, px4: 200 - 4 * i as i64, am4: 8, buy: false },
-                    2 => EvSpec::L1 { inst: 0, t, bid4: 399 + 8 * i as i64, ask4: 401 + 8 * i as i64, bam4: 4, aam4: 12 },
-                    _ => EvSpec::Reconnecting { slot: 0 },
+                    0 => EvSpec::Trade { inst: 0, t, ns: 0, px4: 400 + 8 * (i as i64 % 9), am4: 4, buy: true },
+                    1 => EvSpec::Trade { inst: 1, t, ns: 0, px4: 200 - 4 * (i as i64 % 9), am4: 8, buy: false },
+                    2 => EvSpec::L1 {
+                        inst: 0,
+                        t,
+                        ns: 0,
+                        bid4: 399 + 8 * (i as i64 % 9),
+                        ask4: 401 + 8 * (i as i64 % 9),
+                        bam4: 4,
+                        aam4: 12,
+                    },
+                    3 => EvSpec::Reconnecting { slot: 0 },
+                    // 4..=10: the remaining market item kinds (one-sided / empty L1, candle,
+                    // liquidation, L2 snapshot, L2 update)
+                    4..=10 => EvSpec::Other { inst: 0, t, ns: 0, kind: k - 4, px4: 400 + i as i64 },
+                    // 11..: trades on slots 2, 3, 4 (topology 2)
+                    _ => EvSpec::Trade { inst: (*k as usize) - 9, t, ns: 0, px4: 300 + 4 * (i as i64 % 9), am4: 4, buy: true },
                 }
             })
             .collect()
     };
     let base = |paced: bool, events: Vec<EvSpec>, nbt: usize| Scenario {
         paced,
-        with_unlinked: false,
+        topo: 0,
         latency_ms: 0,
         fee_bp: 10,
         quote_balance: 1_000_000,
@@ -1593,7 +1874,60 @@ fn table(em: &mut Emitter) {
         vec![0, 1, 0, 1],
         vec![0, 2, 0, 3],
         vec![1, 0, 0, 0],
+        // disconnect markers: several first, several in the middle, last, first and last
+        vec![3, 3, 0],
+        vec![0, 3, 3, 3, 0],
+        vec![0, 0, 3],
+        vec![3, 0, 3],
+        // every market item kind once
+        vec![0, 2, 4, 5, 6, 7, 8, 9, 10, 1],
+        // markers at the positions a binary search over the dataset probes
+        vec![0, 0, 0, 0, 3, 0, 0, 0],
+        vec![0, 3, 0, 0, 0, 0, 0, 0],
+        vec![0, 0, 0, 0, 3, 0, 0, 0, 0],
     ];
+    let mut probe33 = vec![0u8; 33];
+    probe33[16] = 3;
+    probe33[24] = 3;
+    for (i, k) in probe33.iter_mut().enumerate() {
+        if *k == 0 && i % 5 == 2 {
+            *k = 1;
+        }
+    }
+    for paced in [false, true] {
+        emit(em, "table", &base(paced, mk(&probe33), 2));
+    }
+    // three exchanges, the link-less one (perpetual + future) in the middle, two mocks
+    for paced in [false, true] {
+        let mut sc = base(paced, mk(&[0, 12, 11, 13, 1, 12, 3, 0, 12, 11, 12], ), 3);
+        sc.topo = 2;
+        emit(em, "table", &sc);
+    }
+    // ties, decreasing and sub-millisecond-apart exchange times (time-sorting or truncating to
+    // milliseconds reorders / merges them)
+    for paced in [false, true] {
+        let t = 3_600_000;
+        let tr = |ns: i64, px4: i64, t: i64| EvSpec::Trade { inst: 0, t, ns, px4, am4: 4, buy: true };
+        let events = vec![
+            tr(999_999, 400, t),
+            tr(1, 404, t),
+            tr(1, 408, t),
+            tr(1_000_000, 412, t),
+            tr(0, 416, t),
+            tr(999, 420, t),
+            tr(0, 424, 2 * t),
+            tr(0, 428, t),
+            tr(500, 432, 2 * t),
+        ];
+        emit(em, "table", &base(paced, events, 2));
+    }
+    // twins: backtests 2k and 2k+1 share id, parameters and risk-free rate
+    for paced in [false, true] {
+        let mut sc = base(paced, mk(&[0, 0, 1, 0, 0]), 6);
+        sc.ids = 5;
+        sc.workers = vec![2, 8];
+        emit(em, "table", &sc);
+    }
     for p in &patterns {
         for paced in [false, true] {
             for nbt in [1usize, 2] {
@@ -1620,11 +1954,11 @@ fn table(em: &mut Emitter) {
         let events: Vec<EvSpec> = (0..4)
             .map(|i| {
                 t += 3_600_000;
-                EvSpec::Trade { inst: 2, t, px4: 300 + i, am4: 4, buy: true }
+                EvSpec::Trade { inst: 2, t, ns: 0, px4: 300 + i, am4: 4, buy: true }
             })
             .collect();
         let mut sc = base(false, events, 1);
-        sc.with_unlinked = true;
+        sc.topo = 1;
         sc.workers = vec![];
         sc.params[0].fatal = Some((2, c));
         emit(em, "table", &sc);
@@ -1632,7 +1966,9 @@ fn table(em: &mut Emitter) {
 }
 
 fn main() {
-    quiet_panics();
+    if std::env::var("C20_DEBUG").is_err() {
+        quiet_panics();
+    }
     let args = parse_args();
     let mut em = Emitter::create(&args.out);
     match args.mode.as_str() {
@@ -1673,7 +2009,7 @@ fn main() {
                     em.emit(Case {
                         stream: stream_static(&stream),
                         input: inp.clone(),
-                        coq: "(mkCase false None [] 0%N [])".to_string(),
+                        coq: "(mkCase false None [] true 0%N [])".to_string(),
                         nontrivial: false,
                         tags: vec!["not_judged_empty".into()],
                     });
